@@ -1028,7 +1028,7 @@ class Interp:
         if it.kind == "range" and not enum:
             lo0, hi0 = it.extra
             try:
-                small = lo0 is not None and hi0 is not None and sp.sympify(lo0).is_Integer and sp.sympify(hi0).is_Integer and 0 < int(hi0) - int(lo0) <= 6
+                small = lo0 is not None and hi0 is not None and sp.sympify(lo0).is_Integer and sp.sympify(hi0).is_Integer and 0 < int(hi0) - int(lo0) <= 12
             except Exception:
                 small = False
             if small:
